@@ -1,0 +1,73 @@
+// Copyright 2026 Dolthub, Inc.
+//
+// Licensed under the Apache License, Version 2.0 (the "License");
+// you may not use this file except in compliance with the License.
+// You may obtain a copy of the License at
+//
+//     http://www.apache.org/licenses/LICENSE-2.0
+//
+// Unless required by applicable law or agreed to in writing, software
+// distributed under the License is distributed on an "AS IS" BASIS,
+// WITHOUT WARRANTIES OR CONDITIONS OF ANY KIND, either express or implied.
+// See the License for the specific language governing permissions and
+// limitations under the License.
+
+//go:build verif
+
+package writer
+
+// Machine-checked contracts for /verif (comment-only; see /verif/DESIGN.md §2.2).
+
+// ---- keyless tables are multisets (C27)
+
+//@ ghost_global verif_ghost
+
+//@ extern (github.com/dolthub/dolt/go/libraries/doltcore/sqle/writer.indexWriter).Insert as verif_x_iw_Insert
+//@   modifies nothing
+//@   ghost_set verif_ghost.kOps = verif_ghost.kOps + 1
+//@ extern (github.com/dolthub/dolt/go/libraries/doltcore/sqle/writer.indexWriter).Delete as verif_x_iw_Delete
+//@   modifies nothing
+//@   ghost_set verif_ghost.kOps = verif_ghost.kOps + 1
+//@ extern (github.com/dolthub/dolt/go/libraries/doltcore/sqle/writer.indexWriter).Update as verif_x_iw_Update
+//@   modifies nothing
+//@   ghost_set verif_ghost.kOps = verif_ghost.kOps + 1
+
+// the table writer applies a row change to the secondary indexes before the primary index: the keyless secondary
+// writer decides whether an index entry disappears from the row's multiplicity in the primary, which must therefore
+// still be the multiplicity before the change. (|secondary| is a Go map, which the engine cannot count over: what is
+// checked is that the LAST index-writer call site in source order is the one on the primary, and that it is reached
+// on the path that left the loop over the secondary writers.)
+//@ func (*prollyTableWriter).Delete
+//@   property C27
+//@   at call Delete#2: assert arg0:indexWriter == w.primary
+//@   also_modifies verif_ghost.kOps
+//@ func (*prollyTableWriter).Update
+//@   property C27
+//@   at call Update#2: assert arg0:indexWriter == w.primary
+//@   also_modifies verif_ghost.kOps
+//@ func (*prollyTableWriter).Insert
+//@   property C27
+//@   at call Insert#2: assert arg0:indexWriter == w.primary
+//@   also_modifies verif_ghost.kOps
+
+// keyless primary: an insert adds one to the row's multiplicity; a delete subtracts one and removes the row exactly
+// when the multiplicity reaches zero
+//@ func (prollyKeylessWriter).Insert
+//@   property C27
+//@   assume_requires ModifyKeylessCardinality
+//@   at call ModifyKeylessCardinality: assert arg2:int64 == 1
+//@ func (prollyKeylessWriter).Delete
+//@   property C27
+//@   assume_requires ModifyKeylessCardinality
+//@   at call ModifyKeylessCardinality: assert arg2:int64 == -1
+//@   at call Put: assert after > 0
+//@   at call Delete: assert after == 0
+
+// keyless secondary: the index entry of a row is removed only when the row's multiplicity (read from the primary
+// before it is decremented) is at most one
+//@ func (prollyKeylessSecondaryWriter).Delete
+//@   property C27
+//@   assume_requires ReadKeylessCardinality
+//@   assume_requires GetField
+//@   assume_requires writeHash128
+//@   at call Delete: assert card <= 1
